@@ -17,7 +17,7 @@ RULE = (
     "infinite family (both TTLs 0xFFFFFF, no refresh, cyclic offers on), given to both stacks and the service instance as one Timings object or as three objects whose role-foreign parameters differ (low: TTL 1 / period 0.25, high: 1000 / 300), drawn uniform fractions, and a script of 0..8 "
     "disturbances (graceful stop/start, crash/restart of either stack, open/close of a fault window in which every "
     "datagram is independently dropped, duplicated or delayed) placed by delay or relative to the pending timers of either "
-    "stack (-4RES, -RES/4, +RES/4, +4RES, halfway), on IPv4 or IPv6 addresses; both stacks run the unmodified library on one virtual-time loop and "
+    "stack (-4RES, -RES/4, +RES/4, +4RES, halfway) or in the same loop iteration as the previous one, on IPv4 or IPv6 addresses; both stacks run the unmodified library on one virtual-time loop and "
     "exchange real datagrams over a simulated network. non-trivial = a crash+restart or a stop/start placed relative to a "
     "pending timer, or a fault window in which a datagram was dropped/duplicated/delayed; distinct = distinct case JSON"
 )
@@ -46,6 +46,7 @@ when_st = st.one_of(
     st.tuples(st.just("d"), st.sampled_from([0.0, 0.01, 0.1, 0.5, 1.0, 2.5, 5.0])).map(list),
     st.tuples(st.just("t"), st.integers(0, 5), st.sampled_from(["-4", "-q", "+q", "+4", "half"])).map(list),
     st.tuples(st.just("t"), st.integers(0, 5), st.sampled_from(["-4", "-q", "+q", "+4", "half"])).map(list),
+    st.just(["s"]),   # in the same loop iteration as the previous disturbance (stop immediately followed by start)
 )
 fault_act = st.one_of(st.just(["ok"]), st.just(["drop"]), st.just(["drop"]), st.just(["dup"]), st.tuples(st.just("delay"), st.sampled_from([0.001, 0.05, 0.4, 1.5])).map(list))
 
@@ -74,12 +75,12 @@ def strategy(tier):
     return _case(16 if tier == "thorough" else 8)
 
 
-ALPHA = ["stopO", "startO", "stopW", "startW", "crashO", "restartO", "crashW", "restartW", "T-q", "T+q", "+0.3", "+B"]
+ALPHA = ["stopO", "startO", "stopW", "startW", "crashO", "restartO", "crashW", "restartW", "T-q", "T+q", "+0.3", "+B", "same"]
 ENUM_LEN = {"quick": 3, "thorough": 4}
 ENUM_TM = {"finite": dict(attl=3, sttl=3, cyc=1.0, refresh=1.0, reps=1, base=0.05, imax=0.1, rmax=0.02, coll=0.005),
            "infinite": dict(attl=INF, sttl=INF, cyc=1.0, refresh=None, reps=1, base=0.05, imax=0.1, rmax=0.02, coll=0.005)}
-EXHAUSTIVE = {"quick": "all 12^3 = 1728 disturbance scripts of length 3 over {graceful stop/start, crash/restart of either side} x timing prefixes {next pending timer -RES/4, +RES/4, +0.3 s, one convergence bound}, finite and infinite family",
-              "thorough": "all 12^4 = 20736 disturbance scripts of length 4 over the same alphabet, finite and infinite family"}
+EXHAUSTIVE = {"quick": "all 13^3 = 2197 disturbance scripts of length 3 over {graceful stop/start, crash/restart of either side} x timing prefixes {next pending timer -RES/4, +RES/4, +0.3 s, one convergence bound, same loop iteration}, finite and infinite family",
+              "thorough": "all 13^4 = 28561 disturbance scripts of length 4 over the same alphabet, finite and infinite family"}
 
 
 def enum_size(tier):
@@ -94,8 +95,8 @@ def enum_case(tier, idx):
     for _ in range(ENUM_LEN[tier]):
         idx, r = divmod(idx, len(ALPHA))
         a = ALPHA[r]
-        if a in ("T-q", "T+q", "+0.3", "+B"):
-            when = {"T-q": ["t", 0, "-q"], "T+q": ["t", 0, "+q"], "+0.3": ["d", 0.3], "+B": ["d", 3.6]}[a]
+        if a in ("T-q", "T+q", "+0.3", "+B", "same"):
+            when = {"T-q": ["t", 0, "-q"], "T+q": ["t", 0, "+q"], "+0.3": ["d", 0.3], "+B": ["d", 3.6], "same": ["s"]}[a]
             continue
         steps.append({"op": a, "when": when})
         when = ["d", 0.05]
@@ -133,6 +134,14 @@ def fixed_cases(tier):
                                                  {"op": ("start" if kind1 == "stop" else "restart") + s1, "when": ["d", 0.3]},
                                                  {"op": ("start" if kind2 == "stop" else "restart") + s2, "when": ["t", 0, off1]}]
                                         out.append({"fam": "finite", "tm": fin, "fr": [0.5], "steps": steps, "faults": [["ok"]], "v6": (k1 + k2) % 2 == 1})
+    # a stop immediately followed by a start (same loop iteration), then - later - another stop, a stop/start pair or nothing
+    for fam, tm in (("finite", fin), ("infinite", inf)):
+        for side in "OW":
+            for tail in ([], [{"op": "stop" + side, "when": ["d", 0.7]}], [{"op": "stop" + side, "when": ["d", 0.7]}, {"op": "start" + side, "when": ["s"]}],
+                         [{"op": "stop" + side, "when": ["d", 0.7]}, {"op": "start" + side, "when": ["d", 4.5]}]):
+                for pre in (0.05, 1.3):
+                    out.append({"fam": fam, "tm": tm, "fr": [0.5], "faults": [["ok"]], "v6": side == "W",
+                                "steps": [{"op": "wait", "when": ["d", pre]}, {"op": "stop" + side, "when": ["d", 0.05]}, {"op": "start" + side, "when": ["s"]}] + tail})
     # D2: a restarted watcher's first Subscribe carries the reboot evidence (infinite TTL: nothing heals it later)
     out.append({"fam": "infinite", "tm": inf, "fr": [0.5], "steps": [{"op": "wait", "when": ["d", 3.0]}, {"op": "crashW", "when": ["d", 0.1]}, {"op": "restartW", "when": ["d", 0.5]}], "faults": [["ok"]]})
     out.append({"fam": "infinite", "tm": inf, "fr": [0.5], "steps": [{"op": "wait", "when": ["d", 3.0]}, {"op": "crashO", "when": ["d", 0.1]}, {"op": "restartO", "when": ["d", 0.5]}], "faults": [["ok"]]})
